@@ -66,6 +66,8 @@ SITES = [
     ("consistent_initial_conditions", "ball", "fixed_point"),
     ("ScipyIVP", "ball", "contacts_not_supported"),
     ("ScipyDAE", "ball", "contacts_not_supported"),
+    ("ScipyIVP", "ball_frictionless", "contacts_not_supported"),
+    ("ScipyDAE", "ball_frictionless", "contacts_not_supported"),
 ]
 
 
@@ -115,13 +117,13 @@ def build(system_kind, consistent_opts=None):
         system.add(rb)
         system.add(sysbuild.make_joint({"type": "Revolute", "axis": 1, "r_OJ0": [0.0] * 3, "psi_J": None}, system.origin, rb))
         system.add(Force(np.array([0.0, 0.0, -9.81 * 2.0]), rb, name="gravity"))
-    elif system_kind == "ball":
+    elif system_kind in ("ball", "ball_frictionless"):
         ground = Frame(name="ground")
         rb = RigidBody(1.0, 0.4 * 0.01 * np.eye(3), q0=np.array([0.0, 0.0, 0.1, 1.0, 0, 0, 0]),
                        u0=np.array([0.4, 0.1, 0.0, 0.0, 0.0, 0.0]), name="ball")
         system.add(ground, rb)
         system.add(Force(np.array([0.3, 0.0, -9.81]), rb, name="gravity"))
-        system.add(Sphere2Plane(ground, rb, mu=0.3, r=0.1, e_N=0.0, name="contact"))
+        system.add(Sphere2Plane(ground, rb, mu=0.0 if system_kind == "ball_frictionless" else 0.3, r=0.1, e_N=0.0, name="contact"))
     else:  # statics: a point mass held by three springs, loaded proportionally to t
         pm = PointMass(1.0, q0=np.array([1.0, 0.2, -0.1]), name="pm")
         system.add(pm)
@@ -153,6 +155,18 @@ def _floats_in(text):
 
 
 def check(spec):
+    """One fault; with continue_with_unconverged the same fault is injected a second time in the same process: the
+    announcement must not depend on what an earlier run already reported."""
+    res = _check_once(spec)
+    if spec.get("flag") and not res.failures and spec["site"] != "contacts_not_supported":
+        again = _check_once(spec)
+        res.checked += again.checked
+        for f in again.failures:
+            res.fail(f["subcheck"], f["site"], f["magnitude"], f["features"], "(second identical run in the same process) " + (f["detail"] or ""))
+    return res
+
+
+def _check_once(spec):
     import cardillo.solver.backward_euler as m_be
     import cardillo.solver.rattle as m_rattle
     import cardillo.solver.statics as m_statics
